@@ -119,7 +119,7 @@ func (r *rpRun) setup(tag string) error {
 		return op.GetEntry(), nil
 	}
 	switch r.in.Dag {
-	case "A":
+	case "A", "F":
 		rc, err := r.nodes["c"].Open(addr, "keyvalue", nil)
 		if err != nil {
 			return err
@@ -150,6 +150,30 @@ func (r *rpRun) setup(tag string) error {
 		r.rec(2, e2)
 		r.rec(3, e3)
 		r.rec(4, e4)
+		if r.in.Dag == "F" {
+			// the replica has replicated 1, 2, 3 before and has been stopped and started: they are in its cache, not in its log
+			if err := r.a.S.Sync(ctx, []ipfslog.Entry{copyEntry(e3)}); err != nil {
+				return err
+			}
+			if err := sim.Settle(settleTimeout, r.nodes["a"]); err != nil {
+				return err
+			}
+			if r.a.S.OpLog().Len() != 3 {
+				return fmt.Errorf("setup: the replica holds %d entries instead of 3", r.a.S.OpLog().Len())
+			}
+			pa := r.nodes["a"].P
+			if err := r.nodes["a"].Close(); err != nil {
+				return err
+			}
+			na, err := pa.Start("")
+			if err != nil {
+				return err
+			}
+			r.nodes["a"] = na
+			if r.a, err = na.Open(addr, "keyvalue", nil); err != nil {
+				return err
+			}
+		}
 	case "B", "C", "D", "E":
 		e1, err := put(rb, "k1")
 		if err != nil {
@@ -436,6 +460,9 @@ func (r *rpRun) apply(st Step, prev map[string]interface{}) error {
 			}
 		}
 		wantOK := asStr(specWorkers(st.State)[w-1]["pc"]) == "fetched"
+		if wantOK && !ok && contains(r.logIDs(), item) {
+			ok = true // the entry entered the log meanwhile (the store's own Load): the fetch leaves it out, nothing is lost
+		}
 		if ok != wantOK {
 			r.res.note("%s step %d: fetch of item %d ok=%v, specification ok=%v", r.bid, r.step, item, ok, wantOK)
 			return errDriftR
@@ -485,6 +512,13 @@ func (r *rpRun) apply(st Step, prev map[string]interface{}) error {
 	case "Return":
 		// observed, not forced: Load returns by itself
 		time.Sleep(200 * time.Microsecond)
+	case "StoreLoad", "SStoreLoad":
+		if err := r.a.S.Load(context.Background(), -1); err != nil {
+			return fmt.Errorf("load: %w", err)
+		}
+		if want, got := sortedInts(asInts(st.State["log"])), r.logIDs(); !eqInts(want, got) {
+			r.res.note("%s step %d: log after the store's own Load %v, specification %v", r.bid, r.step, got, want)
+		}
 	case "JoinBatch":
 		p := parkedFor("join.begin", func(p *sim.Parked) bool { return r.isStore(p.Args, 0) }, d)
 		if p == nil {
